@@ -149,7 +149,14 @@ def support_levels(P, R):
                         path.index(it) == len(path) - 3:
                     verdicts[(l, type(t.ops[0]).__name__, r)] = \
                         ex[1].value.value
-    want = {('i', 'Lt', 'iu'): False, ('i', 'Eq', 'iu'): True}
+    vl = au.names_defined_by(e.node, lambda v: isinstance(
+        v, ast.Call) and au.call_name(v) == 'get' and au.chain(
+            v.func.value) == ['self', 'vars'])
+    tu = child_names(e.node)
+    nl = tu[0].targets[0].elts[0].id if tu and isinstance(
+        tu[0].targets[0].elts[0], ast.Name) else None
+    vl = vl[0] if vl else None
+    want = {(vl, 'Lt', nl): False, (vl, 'Eq', nl): True}
     if all(verdicts.get(k) == v for k, v in want.items()):
         R.holds('R-VISIT', e.qualname, 'variable above the node: not '
                 'essential; at the node: essential')
@@ -188,14 +195,25 @@ def pick_first(P, R):
 def count_refusal(P, R):
     f = P.func('dd.bdd.BDD.count')
     guard = None
+    # the surplus of the requested variable count over the support: a
+    # local assigned from a difference, tested `< 0`, raising ValueError
+    diffs = set(au.names_defined_by(f.node, lambda v: isinstance(
+        v, ast.BinOp) and isinstance(v.op, ast.Sub)))
     for n in au.walk_no_defs(f.node):
         if isinstance(n, ast.If) and n.body and isinstance(
-                n.body[-1], ast.Raise) and 'slack' in au.names_loaded(
-                    n.test):
-            guard = n
+                n.body[-1], ast.Raise) and isinstance(
+                    n.test, ast.Compare) and len(n.test.ops) == 1:
+            t = n.test
+            l, r = t.left, t.comparators[0]
+            if (isinstance(l, ast.Name) and l.id in diffs
+                    and au.const_int(r) == 0 and isinstance(
+                        t.ops[0], ast.Lt)) or (
+                    isinstance(r, ast.Name) and r.id in diffs
+                    and au.const_int(l) == 0 and isinstance(
+                        t.ops[0], ast.Gt)):
+                guard = n
     first = [c.lineno for c in au.calls_in(f.node, '_sat_len')]
-    if guard is not None and first and guard.lineno < min(first) and \
-            au.src(guard.test).replace(' ', '') in ('slack<0', '0>slack'):
+    if guard is not None and first and guard.lineno < min(first):
         R.holds('R-VISIT', f.qualname, 'a variable count below the size '
                 'of the support is refused before counting')
     elif guard is None:
@@ -259,10 +277,14 @@ def count_compaction(P, R):
              and isinstance(n.iter, ast.Call) and au.call_name(
                  n.iter) == 'enumerate']
     verdict = None
+    mname = None
+    for c in au.calls_in(f.node, '_sat_len'):
+        if len(c.args) >= 2 and isinstance(c.args[1], ast.Name):
+            mname = c.args[1].id
     for lp in loops:
         if not any(isinstance(s, ast.Assign) and isinstance(
-                s.targets[0], ast.Subscript) and au.is_name(
-                    s.targets[0].value, 'map_level')
+                s.targets[0], ast.Subscript) and mname and au.is_name(
+                    s.targets[0].value, mname)
                 for s in ast.walk(lp)):
             continue
         arg = lp.iter.args[0]
@@ -300,7 +322,8 @@ def minterm_bits(P, R):
         and c.args and au.is_name(c.args[0], 'cube')
         for c in au.calls_in(f.node))
     updates = any(
-        au.call_name(c) == 'update' and au.call_recv(c) == ['model']
+        au.call_name(c) == 'update' and au.call_recv(c)
+        and len(au.call_recv(c)) == 1
         and c.args and au.is_name(c.args[0], 'cube')
         for c in au.calls_in(f.node))
     if removes and updates:
@@ -318,8 +341,13 @@ def minterm_bits(P, R):
     # care_vars default and the cube passed down
     g = P.func('dd.bdd.BDD.pick_iter')
     calls = [c for c in au.calls_in(g.node, '_enumerate_minterms')]
-    if calls and [au.src(a) for a in calls[0].args] == ['cube',
-                                                        'care_vars']:
+    loopvars = {lp.target.id for lp in au.walk_no_defs(g.node)
+                if isinstance(lp, ast.For) and isinstance(
+                    lp.target, ast.Name)}
+    if calls and len(calls[0].args) == 2 and isinstance(
+            calls[0].args[0], ast.Name) and calls[0].args[
+                0].id in loopvars and au.src(
+                    calls[0].args[1]) == 'care_vars':
         R.holds('R-VISIT', g.qualname, 'each cube is completed over '
                 'care_vars', nontrivial=False)
     else:
@@ -763,7 +791,7 @@ def r_dddmp(P, R):
             ctext = au.src(cond.test).replace(' ', '') if isinstance(
                 cond, ast.If) else ''
             enum_src[(tgt, ctext)] = (src, name_to_level, d)
-    lv = [v for (t, c), v in enum_src.items() if t == 'levels'
+    lv = [v for (t, c), v in enum_src.items() if '.' not in t
           and 'ordered_vars' in c]
     info = [v for (t, c), v in enum_src.items() if t == 'self.info2permid']
     if lv and info:
